@@ -33,7 +33,11 @@ def gen(rng, tier):
         focus.update(comps=True, facilities=True)
     if rng.random() < 0.3:
         focus["contention"] = "low"
-    return C.forward_spec(rng, tier, focus)
+    return C.maybe_history(rng, C.forward_spec(rng, tier, focus), 0.25)
+
+
+def extra_candidates(spec):
+    return C.history_candidates(spec)
 
 
 def close(a, b, exact):
@@ -106,10 +110,15 @@ def check_trace(res, tr, clause_prefix="C02"):
     contributed = 0
     started = {tid: False for tid in st.order}
     prevR = None  # previous 'recorded' T (or init)
+    hist = getattr(tr, "history", None)
     if rec.init_snap is not None:
         prevR = rec.init_snap["T"]
         for tid in st.order:
+            if prevR[tid][0] in (WORKING, FINISHED, 3):
+                started[tid] = True  # a continuation starts from what the first call left
             r0 = st.initial_remaining(tid)
+            if hist is not None and not hist["state"]:
+                continue  # state kept: the remaining work is whatever the first call left
             if not close(prevR[tid][1], r0, exact):
                 res.add("initial", clause_prefix + ".initial_remaining", "remaining work of %s after initialize is %r, "
                         "expected default_work_amount*(1-default_progress) = %r" % (tid, prevR[tid][1], r0), -1)
